@@ -356,6 +356,24 @@ def export_model(m, rec, spec, want, nwin):
                 out['termlist_exp'] = export_termlist(edt.to_TermList(cutoff=0., bc='finite'))
         except Exception as e:
             rec.errors['to_TermList'] = type(e).__name__ + ': ' + str(e)[:200]
+        if 'termlist' in out:
+            # the MPO re-built from the term list (TermList -> to_OnsiteTerms_CouplingTerms -> MPOGraph -> MPO) on the window.
+            # (TermList does not keep operator strings: documented as lossy for fermions, so only without Jordan-Wigner operators)
+            out['termlist_has_JW'] = any(sites[i % L].op_needs_JW(op) for t in tl.terms for op, i in t)
+            out['termlist_strings'] = sorted(set([s for (_, _, s, _, _, _) in (out['coupling'] or [])] +
+                                                 [s for t in (out['multi'] or []) for (_, _, s) in t['left'] + t['right']]))
+
+            def mpo_from_termlist():
+                from tenpy.networks.terms import TermList
+                if out['termlist_has_JW'] or len(tl.terms) == 0 or any(s != 'Id' for s in out['termlist_strings']):
+                    return None
+                tl2 = TermList([[(op, int(i)) for op, i in t] for t in tl.terms], np.array(tl.strength))
+                g2 = MPO.MPOGraph.from_term_list(tl2, sites, lat.bc_MPS, unit_cell_width=lat.mps_unit_cell_width)
+                a = contract_mpo(g2.build_MPO(), N)
+                if out['explicit_plus_hc']:
+                    a = a + a.conj().T
+                return a
+            rec.run('H_mpo_from_termlist', mpo_from_termlist)
         # graph exactly as calc_H_MPO builds it
         try:
             g = MPO.MPOGraph.from_terms((ot, ct, edt), sites, lat.bc_MPS, unit_cell_width=lat.mps_unit_cell_width)
